@@ -1331,13 +1331,28 @@ func c04R11(p *core.Program, r *core.Report) {
 		}
 		return false
 	}
-	unreadsAt := func(c *ssa.CallCommon) bool {
+	var unreadsAt func(c *ssa.CallCommon) bool
+	unreadsAtDepth := 0
+	unreadsAt = func(c *ssa.CallCommon) bool {
 		g := c.StaticCallee()
-		if g == nil || g.Name() != "unread" || len(c.Args) == 0 {
+		if g == nil {
 			return false
 		}
-		k, ok := core.ConstInt(c.Args[len(c.Args)-1])
-		return ok && k == '@'
+		if g.Name() == "unread" && len(c.Args) > 0 {
+			k, ok := core.ConstInt(c.Args[len(c.Args)-1])
+			return ok && k == '@'
+		}
+		// a helper of the scanner that pushes the `@` back
+		if unreadsAtDepth < 2 && len(g.Blocks) > 0 && core.FuncPkgPath(g) == core.FuncPkgPath(scan) && g != body && g != scan {
+			unreadsAtDepth++
+			defer func() { unreadsAtDepth-- }()
+			for _, cs := range core.Calls(g, false) {
+				if unreadsAt(cs.Common()) {
+					return true
+				}
+			}
+		}
+		return false
 	}
 	stops, dispatches := map[string]bool{}, map[string]bool{}
 	for _, fn := range []*ssa.Function{body, scan} {
